@@ -289,6 +289,47 @@ func registerIntrinsics(e *Engine) {
 		}
 		return nil
 	}
+	r[vfPkg+".TempPath"] = func(e *Engine, fr *frame, args []Value, site ssa.CallInstruction) Value {
+		return "/tmp/crdverif-" + mustStr(e, args[0], "TempPath name")
+	}
+	r["github.com/berquerant/ybase.NewReader"] = func(e *Engine, fr *frame, args []Value, site ssa.CallInstruction) Value {
+		// the real reader sits on bufio; use the rune-slice model over the reader's whole content
+		ra := e.intr["io.ReadAll"](e, fr, []Value{args[0]}, site).(tuple)
+		b := e.bytesOf(ra[0], "ybase.NewReader input")
+		rs := []rune(string(b))
+		a := make([]Value, len(rs))
+		for i, r := range rs {
+			a[i] = int64(r)
+		}
+		p := e.prog.Pkgs[Module+"/input/ast"]
+		fn := p.Func("ZzNewModelReader")
+		if fn == nil {
+			e.abort(abortEngine, "ZzNewModelReader missing from the ast overlay")
+		}
+		return e.callSSA(fn, []Value{sliceV{a: a}}, nil, nil)
+	}
+	r[vfPkg+".Native"] = func(e *Engine, fr *frame, args []Value, site ssa.CallInstruction) Value { return false }
+	r[vfPkg+".ExecuteFails"] = func(e *Engine, fr *frame, args []Value, site ssa.CallInstruction) Value {
+		e.hostState["executeFails"] = args[0].(bool)
+		return nil
+	}
+	// ExitCodeOf runs f and returns the status passed to os.Exit, or -1 when f returns.
+	r[vfPkg+".ExitCodeOf"] = func(e *Engine, fr *frame, args []Value, site ssa.CallInstruction) (res Value) {
+		depth, stack := e.depth, len(e.stack)
+		defer func() {
+			if r := recover(); r != nil {
+				pa, ok := r.(pathAbort)
+				if !ok || pa.kind != abortExit {
+					panic(r)
+				}
+				e.depth, e.stack = depth, e.stack[:stack]
+				e.exited = false
+				res = int64(e.exitCode)
+			}
+		}()
+		e.call(args[0], nil, site)
+		return int64(-1)
+	}
 	r[vfPkg+".ExpectPanic"] = func(e *Engine, fr *frame, args []Value, site ssa.CallInstruction) Value {
 		e.hostState["expectPanic"] = true
 		return nil
@@ -490,6 +531,17 @@ func registerIntrinsics(e *Engine) {
 			cs = append(cs, e.ctx.Eq(rt, e.ctx.BVConst(32, uint64(uint32(c)))))
 		}
 		return e.lowerBool(e.ctx.Or(cs...))
+	}
+	r["strings.Compare"] = func(e *Engine, fr *frame, args []Value, site ssa.CallInstruction) Value {
+		if a, ok := argStr(args[0]); ok {
+			if b, ok := argStr(args[1]); ok {
+				return int64(strings.Compare(a, b))
+			}
+		}
+		lt := e.strLess(args[0], args[1], false, false)
+		eq := e.strEq(args[0], args[1])
+		it := types.Typ[types.Int]
+		return e.ite(eq, it, int64(0), e.ite(lt, it, int64(-1), int64(1)))
 	}
 	r["strings.TrimSpace"] = func(e *Engine, fr *frame, args []Value, site ssa.CallInstruction) Value {
 		return strings.TrimSpace(mustStr(e, args[0], "TrimSpace"))
